@@ -488,6 +488,8 @@ type testClient struct {
 	closeCB []string
 	recon   int
 	mu      sync.Mutex
+	// reconHold, when set, parks the after-reconnect callback (after it was counted) until the channel is closed
+	reconHold chan struct{}
 }
 
 func newTestClient() *testClient {
@@ -502,9 +504,18 @@ func newTestClient() *testClient {
 	tc.cli.AfterReconnected(func() {
 		tc.mu.Lock()
 		tc.recon++
+		hold := tc.reconHold
 		tc.mu.Unlock()
+		if hold != nil {
+			<-hold
+		}
 	})
 	return tc
+}
+func (tc *testClient) setReconHold(ch chan struct{}) {
+	tc.mu.Lock()
+	tc.reconHold = ch
+	tc.mu.Unlock()
 }
 func (tc *testClient) reconCount() int {
 	tc.mu.Lock()
